@@ -291,6 +291,23 @@ def evaluate(vec, r, props, style=0, morph_from=None, huge=False, chan_zero=None
                 out.append(("C01:reencode_differs", f"first difference at byte {first_diff(re, enc)}"))
         except Exception as x:  # noqa: BLE001
             out.append(("C01:reencode_differs", f"{type(x).__name__}: {x}"))
+    if props & {"C05", "C01"} and kind == "ForceTorque3D" and len(b["tracks"]) == 2:
+        # two tracks that SHARE one array object (e.g. one zero free-torque array for both feet): writing
+        # the first track must not touch what the second one stores
+        try:
+            sh = ab.gamma(kind, fmt, b, vals, style)
+            t1, t2 = ab.items_of(kind, sh)
+            t1.torque = t2.torque
+            t1.force = t2.force
+            enc_sh = ab.encode(sh)
+            dsh, _ = ab.decode(kind, fmt, enc_sh)
+            back_sh = ab.alpha(kind, fmt, dsh, vals)
+            if back_sh["tracks"][1] != b["tracks"][1]:
+                for p_ in ("C05", "C01"):
+                    if p_ in props:
+                        out.append((f"{p_}:shared_array_overwritten", "the second of two tracks sharing an array: " + _where(b["tracks"][1], back_sh["tracks"][1])))
+        except Exception as x:  # noqa: BLE001
+            out.append(("C01:valid_block_refused", f"tracks sharing an array: {type(x).__name__}: {x}"))
     if "C05" in props and any(t.get("g") == "rle" for t in toks):
         for (a, z) in ab.rle_spans(toks):
             if enc[a:z] != exp[a:z]:
@@ -316,6 +333,20 @@ def evaluate(vec, r, props, style=0, morph_from=None, huge=False, chan_zero=None
                 out.append(("C14:equal_content_unequal", "a block is unequal to an identically built one"))
             if not (obj == dec) or not (dec == obj):
                 out.append(("C14:roundtrip_unequal", "a block is unequal to the decode of its own encoding"))
+            if kind == "CalibrationData" and b["cams"]:
+                # the same header with cameras of the OTHER format: unequal, in both orders, without raising
+                ofmt = 2 if fmt == 1 else 1
+                cams = []
+                for c in b["cams"]:
+                    c2 = {k: v for k, v in c.items() if k in ("rotation_matrix", "translation_vector", "focus", "optical_center", "vp_origin", "vp_size")}
+                    if ofmt == 1:
+                        c2.update(radial_distortion=c["focus"], decentering=c["focus"], thin_prism=c["focus"])
+                    else:
+                        c2.update(x_distortion_coefficients=(c["rotation_matrix"] * 8)[:70], y_distortion_coefficients=(c["rotation_matrix"] * 8)[:70])
+                    cams.append(c2)
+                other_fmt = ab.gamma(kind, ofmt, dict(b, cams=cams), Values(r), style)
+                if (obj == other_fmt) or (other_fmt == obj):
+                    out.append(("C14:different_content_equal", "calibration blocks of different formats compare equal"))
             if kind == "Events" and b["events"]:
                 # the same events given as float64 arrays whose values are NOT float32 numbers (they differ from
                 # the stored value by less than the on-disk precision): same bytes, equal to the round trip
